@@ -125,6 +125,21 @@ extern char*
 xmempbrk(const char *src, size_t len, const char *set);
 
 
+/**
+ * Number of bytes snprintf() left in a buffer of Z bytes when it returned N,
+ * which is the length it would have liked to write. */
+static inline size_t
+sntrunc(int n, size_t z)
+{
+	if (n < 0 || !z) {
+		return 0U;
+	}
+	if ((size_t)n >= z) {
+		return z - 1U;
+	}
+	return (size_t)n;
+}
+
 static inline char
 ui2c(uint32_t x, char pad)
 {
